@@ -224,14 +224,15 @@ struct AttemptCtx<'a> {
 }
 
 /// The reference attempt model (DESIGN 5.1) over random outcomes.
-fn gen_attempt(t: &mut Tape, c: &AttemptCtx<'_>, retries: Option<Retries>, p: &SProfile, allow_hook_fail: bool, tokbase: &str, excluded: &mut u64) -> Att {
+fn gen_attempt(t: &mut Tape, c: &AttemptCtx<'_>, retries: Option<Retries>, p: &SProfile, allow_hook_fail: (bool, bool), tokbase: &str, excluded: &mut u64) -> Att {
     let mut evs = vec![Scenario::Started];
     let (mut failed, mut skipped, mut hook_failed, mut stop) = (false, false, false, false);
     let mut deferred: Option<Scenario<W>> = None;
     let world = || Some(Arc::new(W { id: 7, counter: 1 }));
-    let mut hook_fails = |t: &mut Tape, excluded: &mut u64| {
+    // `allow_hook_fail` = (before hook, after hook); the draw is made either way (same tape)
+    let mut hook_fails = |t: &mut Tape, excluded: &mut u64, allowed: bool| {
         let f = pct(t, p.p_hook_fail);
-        if f && !allow_hook_fail {
+        if f && !allowed {
             *excluded += 1;
             return false;
         }
@@ -239,7 +240,7 @@ fn gen_attempt(t: &mut Tape, c: &AttemptCtx<'_>, retries: Option<Retries>, p: &S
     };
     if c.before {
         evs.push(Scenario::hook_started(HookType::Before));
-        if hook_fails(t, excluded) {
+        if hook_fails(t, excluded, allow_hook_fail.0) {
             deferred = Some(Scenario::hook_failed(HookType::Before, world(), info(format!("{tokbase}:before-hook-panic"))));
             failed = true;
             hook_failed = true;
@@ -304,7 +305,7 @@ fn gen_attempt(t: &mut Tape, c: &AttemptCtx<'_>, retries: Option<Retries>, p: &S
     }
     if c.after {
         evs.push(Scenario::hook_started(HookType::After));
-        if hook_fails(t, excluded) {
+        if hook_fails(t, excluded, allow_hook_fail.1) {
             evs.push(Scenario::hook_failed(HookType::After, world(), info(format!("{tokbase}:after-hook-panic"))));
             failed = true;
             hook_failed = true;
@@ -348,7 +349,7 @@ fn gen_sc(t: &mut Tape, c: &AttemptCtx<'_>, p: &SProfile, excluded: &mut u64, ui
         *excluded += 1;
     }
     if !retry {
-        attempts.push(gen_attempt(t, c, None, p, true, &format!("{uid}#-"), excluded));
+        attempts.push(gen_attempt(t, c, None, p, (true, true), &format!("{uid}#-"), excluded));
         return attempts;
     }
     let n = t.range(1, 3);
@@ -356,8 +357,15 @@ fn gen_sc(t: &mut Tape, c: &AttemptCtx<'_>, p: &SProfile, excluded: &mut u64, ui
     loop {
         let ret = Some(Retries { current: k, left: n - k });
         let is_final = k == n;
-        // D2: hook failure in an attempt that can be retried; D5b: hook failure after a retried attempt
-        let allow_hook_fail = !(p.exclude_nonfinal_hook_failure && !is_final) && !(p.exclude_hook_failure_after_retry && k > 0);
+        // D2: hook failure in an attempt that can be retried. D5b: hook failure after a retried
+        // attempt *while Summarize's stale Retried indicator is still in place*, i.e. a Before-hook
+        // failure, or an After-hook failure of a scenario without own steps (with own steps every
+        // way of reaching the After hook has replaced the indicator: last step Passed removes it,
+        // Skipped / Failed overwrite it). Until round 13 every hook failure after a retry was
+        // excluded, which hid the correct skipped-then-After-hook-failed path (seed C12-r13).
+        let d2 = p.exclude_nonfinal_hook_failure && !is_final;
+        let d5b = p.exclude_hook_failure_after_retry && k > 0;
+        let allow_hook_fail = (!d2 && !d5b, !d2 && !(d5b && c.sc.steps.is_empty()));
         let a = gen_attempt(t, c, ret, p, allow_hook_fail, &format!("{uid}#{k}"), excluded);
         let failed = a.failed;
         let nf = has_notfound(&a);
@@ -403,6 +411,17 @@ pub fn gen_tree(t: &mut Tape, p: &SProfile) -> Tree {
                         // (one doc string in three ends with a blank line)
                         let tail = if crate::tape::hash_str(&base) % 3 == 0 { "\n" } else { "" };
                         st.docstring = Some(format!("doc of {base}\n  indented {}\n{tail}", DECOR[t.pick(DECOR.len())]));
+                        // (round 13: every other step with a doc string also carries a data table, which
+                        // `gherkin::Step` allows and the reporters print one after the other; chosen by a
+                        // hash so that the tape is consumed as before)
+                        let h = crate::tape::hash_str(&format!("{base}#{i}"));
+                        if h % 2 == 0 {
+                            st.table = Some(gherkin::Table {
+                                rows: vec![vec!["k".into(), "v é".into()], vec![DECOR[(h / 2) as usize % DECOR.len()].into(), "2".into()], vec!["third".into(), String::new()]],
+                                span: gherkin::Span::default(),
+                                position: gherkin::LineCol { line: l + 1 + i, col: 7 },
+                            });
+                        }
                     } else if p.decorate && pct(t, 15) {
                         st.table = Some(gherkin::Table {
                             rows: vec![vec!["col".into(), "é wide 日本".into()], vec![DECOR[t.pick(DECOR.len())].into(), "1".into()]],
